@@ -15,7 +15,10 @@ RULE = ("every fault kind of the catalogue that has an unambiguous culprit token
         "1 <= line <= lines+1, 1 <= column <= expanded line length + 1. Specific oracle: the first span of the first error report names "
         "the planting file and the culprit token's line and column computed by an independent expander (a tab = 4 columns); for kinds "
         "with two defensible readings the column may be the statement start or the operand start. The same positions are read back from "
-        "the text of --report-format=bare. state = (fault, slot, prefix, location); non-trivial = distinct state")
+        "the text of --report-format=bare, and the default graphical format is parsed: every source line shown under a file name must be "
+        "that line of that file and every highlight the text at that column (also for 55 diagnostics whose spans lie in two files). A "
+        "legal statement with the same mnemonic follows every planted fault (in the same and in a further linked file), and branch faults "
+        "also come with forward targets. state = (fault, slot, prefix, location); non-trivial = distinct state")
 ASSUMPTIONS = ["culprit column of pdpmc/faults.py (natural reading of each message; DESIGN.md Appendix C)", "secondary spans are only checked by the universal oracle"]
 
 BASES = [
@@ -39,7 +42,18 @@ EXTRA = [
     {"id": "late-comma-insn", "text": "mov r0, r1, }", "culprit": (0, ", }"), "col": "strict"},
     {"id": "word-second-oob", "text": ".word 1,\t200001", "culprit": (0, "200001"), "col": "strict"},
     {"id": "undef-after-tabs", "text": "mov\t#1,\tundefsym9", "culprit": (0, "undefsym9"), "col": "strict"},
+    # the same branch faults with a target that is not known when the statement is visited
+    {"id": "far-branch-fwd", "text": "br farl9", "culprit": (0, None), "col": "stmt-or-operand", "needs": "farl"},
+    {"id": "far-bne-fwd", "text": "bne farl9+2", "culprit": (0, None), "col": "stmt-or-operand", "needs": "farl"},
+    {"id": "sob-fwd-label", "text": "sob r1, farl9", "culprit": (0, None), "col": "stmt-or-operand", "needs": "farl"},
+    {"id": "odd-branch-fwd", "text": "br oddl9", "culprit": (0, None), "col": "stmt-or-operand", "needs": "oddl"},
+    {"id": "far-branch-sym", "text": "br fardist9", "culprit": (0, None), "col": "stmt-or-operand", "needs": "fardist"},
 ]
+NEEDS = {"bigsym": ["\tbigsym = 200000"], "farl": ["\t.blkb 1000", "farl9:\tnop"], "oddl": ["\t.byte 0", "oddl9:\t.byte 0"], "fardist": ["\tfardist9 = . + 2000"]}
+# a legal statement with the same mnemonic or directive, placed after the fault (same file) and in a further linked file
+DECOYS = {"br": "br .", "bne": "bne .", "sob": "sob r2, .", "mov": "mov r2, r3", "clr": "clr r4", "emt": "emt 1", "trap": "trap 2", ".word": ".word 3", ".byte": ".byte 4, 5", ".ascii": ".ascii /ok/",
+          ".asciz": ".asciz /o/", ".rad50": ".rad50 /abc/", ".blkb": ".blkb 2", ".blkw": ".blkw 1", ".repeat": ".repeat 1 { nop }", ".align": ".align 2", "jmp": "jmp (r1)", "inc": "inc r1", "add": "add r1, r2",
+          "ldf": "ldf (r1), ac0", "mul": "mul r1, r3", "jsr": "jsr pc, (r1)", "xor": "xor r1, r2", "spl": "spl 1", "mark": "mark 1", "tst": "tst r0", "cmp": "cmp r0, r1", ".dword": ".dword 1", "insert_file": None}
 
 
 def bound(tier):
@@ -63,6 +77,58 @@ FAULTS = fault_list()
 def cases(tier):
     for f in FAULTS:
         yield {"k": "fault", "id": f["id"]}
+    yield {"k": "graphical"}
+
+
+ANSI = re.compile(r"\x1b\[[0-9;]*[A-Za-z]")
+
+
+def parse_graphical(text):
+    """sections of the graphical report format: [{"file": path, "lines": [(number, shown text, [(terminal column, highlighted text)])]}]"""
+    sections = []
+    for raw in text.split("\n"):
+        plain = ANSI.sub("", raw).replace("\x01", "").replace("\x02", "")
+        m = re.match(r"^(?:Error|Warning|Critical error|Note)?\s*[Ii]n (\S.*?):(?: \[-W[\w-]+\])?$", plain)
+        if m:
+            sections.append({"file": m.group(1), "lines": []})
+            continue
+        m = re.match(r"^\x1b\[92m\s*(\d+)\x1b\[0m \x1b\[38;5;242m\u2502 \x1b\[38;5;11m(.*?)\x1b\[0m(.*)$", raw)
+        if m and sections:
+            # line number, bar, a gutter (brackets that join several spans), the source text, then every highlight as
+            # 'go to column c' + the highlighted text
+            gutter = m.group(2)
+            parts = re.split(r"\x1b\[(\d+)G", m.group(3))
+            shown = ANSI.sub("", parts[0]).replace("\x01", "").replace("\x02", "")
+            hl = []
+            for i in range(1, len(parts) - 1, 2):
+                hl.append((int(parts[i]) - len(gutter), ANSI.sub("", parts[i + 1]).replace("\x01", "").replace("\x02", "")))
+            sections[-1]["lines"].append((int(m.group(1)), shown, hl))
+    return sections
+
+
+def graphical_probs(stderr, sources, root):
+    """every source line shown under a file name is that line of that file (a tab shown as four blanks), every highlight is the
+    text of that line at that column"""
+    probs = []
+    secs = parse_graphical(stderr)
+    for sec in secs:
+        rel = sec["file"][len(root) + 1:] if sec["file"].startswith(root) else sec["file"]
+        if rel not in sources:
+            probs.append(("graphical-foreign-file", "a section is headed %s, which is not a file of this run" % sec["file"]))
+            continue
+        flines = sources[rel].split("\n")
+        for n, shown, hl in sec["lines"]:
+            if not 1 <= n <= len(flines):
+                probs.append(("graphical-line-outside-file", "line %d shown under %s, which has %d lines" % (n, rel, len(flines))))
+                continue
+            want = flines[n - 1].replace("\t", "    ")
+            if shown.rstrip() != want.rstrip():
+                probs.append(("graphical-wrong-line-text", "under %s, line %d is shown as %r; line %d of that file is %r" % (rel, n, shown, n, want)))
+                continue
+            for col, txt in hl:
+                if want[col - 9:col - 9 + len(txt)] != txt and txt.strip():
+                    probs.append(("graphical-wrong-highlight", "under %s line %d the highlight at column %d is %r, the line has %r there" % (rel, n, col - 8, txt, want[col - 9:col - 9 + len(txt)])))
+    return probs, secs
 
 
 def expand_col(s):
@@ -74,8 +140,11 @@ def build(f, bi, slot, prefix, loc, uid):
     pname, pre, mode = prefix
     pre = pre % uid if "%d" in pre else pre
     base = list(BASES[bi])
-    if f.get("needs") == "bigsym" and not any("bigsym" in l for l in base):
-        base.append("\tbigsym = 200000")
+    if f.get("needs") and not any(NEEDS[f["needs"]][-1].strip().split()[0].rstrip(":") in l for l in base):
+        base += NEEDS[f["needs"]]
+    decoy = DECOYS.get(f["text"].split()[0].lower()) if " " in f["text"] or "\t" in f["text"] else None
+    if decoy:
+        base.append("\t" + decoy)
     frag = f["text"].split("\n")
     if mode == "inner":
         frag = [l.replace(" ", "\t", 1) for l in frag]
@@ -101,11 +170,12 @@ def build(f, bi, slot, prefix, loc, uid):
         m = re.match(r"\S+[ \t]+", body)
         alt = [expand_col(pre), expand_col(pre + body[:m.end()]) if m else expand_col(pre)]
     tree = dict(f.get("tree") or {})
+    zfile = [("z.mac", "\t" + decoy + "\n\t.even\n")] if decoy else []
     if loc == "main":
-        files = [("m.mac", text)]
+        files = [("m.mac", text)] + zfile
         pfile = "m.mac"
     elif loc == "second":
-        files = [("m.mac", "\tnop\nfirst::\tnop\n"), ("n.mac", text)]
+        files = [("m.mac", "\tnop\nfirst::\tnop\n"), ("n.mac", text)] + zfile
         pfile = "n.mac"
     elif loc == "included":
         files = [("m.mac", "\tnop\n\t.include \"sub/inc.mac\"\n\tnop\n")]
@@ -139,7 +209,45 @@ def universal(out, files, tree, root_rel):
     return probs
 
 
+TWO_FILE = []
+for _i in range(0, 5):
+    for _j in range(0, 7):
+        _a = "".join("\tnop\n" for _ in range(_i)) + "dupx::\tnop\n\tmov #1, r0\n"
+        _b = "first:\tnop\n" + "".join("\thalt\n" for _ in range(_j)) + "dupx::\tclr r0\n\tnop\n"
+        TWO_FILE.append(("dup-export-%d-%d" % (_i, _j), [("a.mac", _a), ("b.mac", _b)], {}, 2))
+for _i in range(0, 4):
+    TWO_FILE.append(("link-twice-%d" % _i, [("a.mac", "\t.link 2000\n\tnop\n"), ("b.mac", "".join("\tnop\n" for _ in range(_i + 3)) + "\t.link 3000\n")], {}, 2))
+    TWO_FILE.append(("dup-export-include-%d" % _i, [("a.mac", "".join("\tnop\n" for _ in range(_i)) + "\t.include \"h.mac\"\n\tnop\ndupy::\tnop\n")],
+                     {"h.mac": "\tnop\n\tnop\n\tnop\n\tnop\n\tnop\ndupy::\thalt\n"}, 2))
+    TWO_FILE.append(("dup-label-one-file-%d" % _i, [("a.mac", "".join("\tnop\n" for _ in range(_i)) + "dupz:\tnop\n\tnop\ndupz:\tnop\n")], {}, 1))
+    TWO_FILE.append(("undefined-in-second-%d" % _i, [("a.mac", "\tnop\n"), ("b.mac", "".join("\tnop\n" for _ in range(_i + 4)) + "\tclr nosuch\n")], {}, 1))
+
+
 def check(case, r, tier):
+    if case["k"] in ("graphical", "graphical-one"):
+        for name, files, tree, nfiles in TWO_FILE:
+            if case["k"] == "graphical-one" and name != case["name"]:
+                continue
+            cli_tree = dict(tree)
+            cli_tree.update(dict(files))
+            co = driver.cli([n for n, _t in files] + ["-o", "x.bin"], cli_tree, keep=True)
+            try:
+                r.states += 1
+                r.trans += 1
+                probs, secs = graphical_probs(co.stderr, {k2: v for k2, v in cli_tree.items() if isinstance(v, str)}, co.root)
+                if co.exit != 1 or not secs:
+                    probs.append(("graphical-no-report", "exit %r and %d sections" % (co.exit, len(secs))))
+                elif len(set(sec["file"] for sec in secs)) < nfiles:
+                    probs.append(("graphical-missing-file-section", "the diagnostic has spans in %d files, sections are shown for %s" % (nfiles, sorted(set(sec["file"] for sec in secs)))))
+                r.ran("ok" if not probs else "bad", key=("graphical", name))
+                seen = set()
+                for sig, what in probs:
+                    if sig not in seen:
+                        seen.add(sig)
+                        r.violation("%s:%s" % (sig, name.rsplit("-", 1)[0].rstrip("-0123456789")), what, {"k": "graphical-one", "name": name}, None, co.stderr[-600:])
+            finally:
+                shutil.rmtree(co.root, ignore_errors=True)
+        return
     if case["k"] == "one":
         f = [x for x in FAULTS if x["id"] == case["id"]][0]
         run_one(r, f, case["bi"], case["slot"], case["prefix"], case["loc"], 1)
@@ -223,6 +331,20 @@ def run_one(r, f, bi, slot, p, loc, uid):
                 sev, kind, spans = errs[0]
                 if (bl, bc) != (spans[0][1], spans[0][2]) or not m.group(1).endswith(pfile):
                     probs.append(("bare-position-differs", "bare format prints %s:%d:%d, the span is %s:%d:%d" % (m.group(1), bl, bc, pfile, spans[0][1], spans[0][2])))
+        finally:
+            shutil.rmtree(co.root, ignore_errors=True)
+        # and through the default graphical format: every line shown is that line of the file it is shown under, the first
+        # highlighted line is the culprit's line in the planting file
+        co = driver.cli([n for n, _t in files], cli_tree, keep=True)
+        try:
+            gp, secs = graphical_probs(co.stderr, {k2: v for k2, v in cli_tree.items() if isinstance(v, str)}, co.root)
+            probs += gp
+            marked = [(sec["file"], n) for sec in secs for (n, _shown, hl) in sec["lines"] if hl]
+            if not marked:
+                probs.append(("graphical-no-highlight", "no highlighted source line in the graphical report"))
+            elif not any(fl.endswith("/" + pfile) and n == errs[0][2][0][1] for fl, n in marked):
+                # (spans of one file are shown in line order, so the culprit need not be the first highlight)
+                probs.append(("graphical-position-differs", "the graphical report highlights %s, the first span is %s:%d" % (sorted(set((fl.rsplit("/", 1)[-1], n) for fl, n in marked)), pfile, errs[0][2][0][1])))
         finally:
             shutil.rmtree(co.root, ignore_errors=True)
     r.ran("ok" if not probs else "bad", key=key)
